@@ -126,3 +126,45 @@ def capture_flowgraph(tiebreak_seed=None):
         yield log
     finally:
         TH.FlowGraph = orig
+
+
+# ---------------------------------------------------------------- KF-11 probe
+SWIZZLE_SKIPS = {}        # normalised expression text -> number of skipped swizzles
+_CURRENT = [None]
+
+
+def norm_exprs(exprs):
+    return ";".join("".join(str(e).split()) for e in exprs)
+
+
+def install_swizzle_probe():
+    """Call-site probe for KF-11: Header.make_swizzle decides "no swizzle needed" by comparing
+    tensor NAMES.  The wrapper (harness-side, no source edit) records every call in which the
+    tensor's rank list changed but the name did not, i.e. a needed swizzle was dropped; a
+    failing case is attributed to KF-11 only if this event was observed while ITS spec was
+    being compiled."""
+    from teaal.trans.header import Header
+    if getattr(Header.make_swizzle, "_vf_probe", False):
+        return
+    orig = Header.make_swizzle
+
+    def make_swizzle(self, tensor, ranks, type_):
+        before = list(tensor.get_ranks())
+        name_before = tensor.tensor_name()
+        res = orig(self, tensor, ranks, type_)
+        _count("make_swizzle")
+        try:
+            if tensor.tensor_name() == name_before and list(tensor.get_ranks()) != before:
+                _count("swizzle_skipped_by_name")
+                k = _CURRENT[0]
+                if k is not None:
+                    SWIZZLE_SKIPS[k] = SWIZZLE_SKIPS.get(k, 0) + 1
+        except Exception:  # pragma: no cover
+            pass
+        return res
+    make_swizzle._vf_probe = True
+    Header.make_swizzle = make_swizzle
+
+
+def swizzle_skipped_for(spec):
+    return SWIZZLE_SKIPS.get(norm_exprs(e.text() for e in spec.exprs), 0) > 0
